@@ -150,6 +150,40 @@ fn last_sub(st: &mut StreamSpec, f: usize) -> &mut SubSpec {
     st.frames[f].subframes.last_mut().unwrap()
 }
 
+/// see the two `porder-nondividing-layout-*` knobs; searches predictor orders 0..4 and raw orders for one that the
+/// lenient reading can parse, and degrades to a wrong CRC-16 when the block length admits none (e.g. powers of two ≥ 32)
+fn nondividing_layout(s: &mut StreamSpec, f: usize, tail: bool) {
+    let n = s.frames[f].pcm[0].len();
+    for o in 1..=6u32 {
+        let k = 1usize << o;
+        let size = n >> o;
+        if n % k == 0 || size == 0 {
+            continue;
+        }
+        for p in (0..=4usize).rev() {
+            if p > n || n - p == 0 {
+                continue;
+            }
+            let sizes: Option<Vec<usize>> = if tail {
+                (size >= p).then(|| { let mut v = vec![size; k]; v[0] = size - p; v[k - 1] = size + (n - k * size); v })
+            } else {
+                let rest = (k - 1) * size;
+                (n - p > rest && n - p - rest <= size).then(|| { let mut v = vec![size; k]; v[0] = n - p - rest; v })
+            };
+            if let Some(v) = sizes {
+                let x = last_sub(s, f);
+                x.kind = SubKind::Fixed(p as u8);
+                x.res.order = 0;
+                x.res.params = vec![PartParam::Auto];
+                x.bad.order_raw = Some(o as u8);
+                x.bad.part_sizes = Some(v);
+                return;
+            }
+        }
+    }
+    s.frames[f].bad.crc16_wrong = true;
+}
+
 pub fn bad_knobs() -> Vec<BadKnob> {
     macro_rules! k {
         ($n:expr, $m:expr, $f:expr) => {
@@ -187,6 +221,18 @@ pub fn bad_knobs() -> Vec<BadKnob> {
         k!("method-3", true, |s, f| { let x = last_sub(s, f); x.kind = SubKind::Fixed(0); x.bad.method_raw = Some(3) }),
         k!("porder-15", true, |s, f| { let x = last_sub(s, f); x.kind = SubKind::Fixed(0); x.bad.order_raw = Some(15) }),
         k!("porder-nondividing", true, |s, f| { let n = s.frames[f].pcm[0].len(); let x = last_sub(s, f); x.kind = SubKind::Fixed(0); x.bad.order_raw = Some((n.trailing_zeros() + 1).min(15) as u8) }),
+        // the same rule with each predictor order: a reader that partitions the residual from the END of the block, or only
+        // checks that the partition size is non-zero, accepts exactly those frames where order ≡ remainder (mod size)
+        k!("porder-nondividing-fixed1", true, |s, f| { let n = s.frames[f].pcm[0].len(); let x = last_sub(s, f); x.kind = SubKind::Fixed(1); x.bad.order_raw = Some((n.trailing_zeros() + 1).min(15) as u8) }),
+        k!("porder-nondividing-fixed2", true, |s, f| { let n = s.frames[f].pcm[0].len(); let x = last_sub(s, f); x.kind = SubKind::Fixed(2); x.bad.order_raw = Some((n.trailing_zeros() + 1).min(15) as u8) }),
+        k!("porder-nondividing-fixed3", true, |s, f| { let n = s.frames[f].pcm[0].len(); let x = last_sub(s, f); x.kind = SubKind::Fixed(3); x.bad.order_raw = Some((n.trailing_zeros() + 1).min(15) as u8) }),
+        k!("porder-nondividing-fixed4", true, |s, f| { let n = s.frames[f].pcm[0].len(); let x = last_sub(s, f); x.kind = SubKind::Fixed(4); x.bad.order_raw = Some((n.trailing_zeros() + 1).min(15) as u8) }),
+        k!("porder-nondividing+1-fixed2", true, |s, f| { let n = s.frames[f].pcm[0].len(); let x = last_sub(s, f); x.kind = SubKind::Fixed(2); x.bad.order_raw = Some((n.trailing_zeros() + 2).min(15) as u8) }),
+        k!("porder-nondividing-lpc", true, |s, f| { let n = s.frames[f].pcm[0].len(); let x = last_sub(s, f); x.kind = kind_of(7); x.bad.order_raw = Some((n.trailing_zeros() + 1).min(15) as u8) }),
+        // self-consistent frames under two lenient readings of a non-dividing partition order o (size = n >> o, 2^o partitions):
+        // "rchunks": equal partitions counted from the end of the block; "tail": the last partition absorbs the remainder
+        k!("porder-nondividing-layout-rchunks", true, |s, f| nondividing_layout(s, f, false)),
+        k!("porder-nondividing-layout-tail", true, |s, f| nondividing_layout(s, f, true)),
         k!("porder-first-partition-negative", true, |s, f| { let n = s.frames[f].pcm[0].len(); let x = last_sub(s, f); x.kind = SubKind::Fixed(if n > 4 { 4 } else { 1 }); x.bad.order_raw = Some(n.trailing_zeros().min(15) as u8) }),
         k!("short-nonfinal-block-5", true, |s, _f| { if s.frames.len() > 1 && s.total == TotalSpec::Exact { let ch = s.channels as usize; for c in 0..ch { s.frames[0].pcm[c].truncate(5); } } else { s.frames[0].bad.crc16_wrong = true } }),
         k!("short-nonfinal-block-14", true, |s, _f| { if s.frames.len() > 1 && s.total == TotalSpec::Exact && s.frames[0].pcm[0].len() >= 14 { let ch = s.channels as usize; for c in 0..ch { s.frames[0].pcm[c].truncate(14); } } else { s.frames[0].bad.crc16_wrong = true } }),
